@@ -78,9 +78,14 @@ def build(npts, forced, iota, start='v_parallel', seed=0, random_field=True):
     return o
 
 
-def fill_phi(phi, npts, layout, seed):
+def fill_phi(phi, npts, layout, seed, z_independent=False):
     L = phi.getLayout(layout)
     full = np.random.default_rng(seed).normal(size=[npts[d] for d in L.dims_order])
+    if z_independent:
+        # the same (r, theta) plane at every axial position (bit-identical planes)
+        zpos = list(L.dims_order).index(2)
+        first = np.take(full, [0], axis=zpos)
+        full = np.repeat(first, npts[2], axis=zpos)
     phi.getAllData()[:] = full[tuple(slice(s, e) for s, e in zip(L.starts, L.ends))]
 
 
@@ -301,6 +306,20 @@ def op_body(npts, forced, iota, which, start):
         fill_phi(phi, npts, 'poloidal', 9)
         phi.getAllData()[:] *= 0.01
         o['pol'].gridStep(f, phi, o['half'])
+    elif which == 'pol_seq':
+        # the same operator object used twice: first with a potential that is the same on every z plane (and a zero one), then with
+        # a z-dependent potential; nothing of the earlier calls may survive (cached splines are per local z plane)
+        f.setLayout('poloidal')
+        phi.setLayout('poloidal')
+        fill_phi(phi, npts, 'poloidal', 5, z_independent=True)
+        phi.getAllData()[:] *= 0.01
+        o['pol'].gridStep(f, phi, o['half'])
+        phi.getAllData()[:] = 0.0
+        o['pol'].gridStep(f, phi, o['half'])
+        fill_phi(phi, npts, 'poloidal', 9)
+        phi.getAllData()[:] *= 0.01
+        o['pol'].gridStep(f, phi, o['half'])
+        o['pol'].gridStep_SplinesUnchanged(f, o['half'])
     elif which == 'qn':
         f.setLayout('v_parallel')
         o['density'].getPerturbedRho(f, rho)
@@ -331,14 +350,15 @@ def part_operators(chk, stats):
     npts = (6, 8, 8, 9)
     grids = chk.n([(2, 1), (1, 2), (2, 2), (3, 2)], [(2, 1), (1, 2), (2, 2), (3, 2), (3, 1), (1, 3), (2, 3), (2, 4), (6, 1), (3, 3)])
     for which, start, iotas in (('init', 'flux_surface', [0.8]), ('init', 'poloidal', [0.8]), ('init', 'v_parallel', [0.8]),
-                                ('flux', 'flux_surface', [0.0, 0.8]), ('flux_tuned', 'flux_surface', [0.8]), ('vpar', 'v_parallel', [0.8]), ('pol', 'poloidal', [0.8]), ('qn', 'v_parallel', [0.8])):
+                                ('flux', 'flux_surface', [0.0, 0.8]), ('flux_tuned', 'flux_surface', [0.8]), ('vpar', 'v_parallel', [0.8]), ('pol', 'poloidal', [0.8]), ('pol_seq', 'poloidal', [0.8]), ('qn', 'v_parallel', [0.8])):
         for iota in iotas:
             ref = lu.run_ranks(1, op_body, npts, (1, 1), iota, which, start)
             if not ref.ok:
                 chk.fail('C05:serial-run', 'serial %s raised: %s' % (which, str(ref.first_error())[:200]), {'op': which})
                 continue
             refG = {k: assemble([v], npts) for k, v in ref.values()[0].items()}
-            for forced in grids:
+            # (1, 8): every process owns exactly one z plane in the layouts that distribute z over the second process axis
+            for forced in (list(grids) + [(1, 8)] if which in ('qn', 'pol', 'vpar') else grids):
                 res = lu.run_ranks(forced[0] * forced[1], op_body, npts, forced, iota, which, start, policy='random', seed=chk.seed)
                 case = {'operator': which, 'start_layout': start, 'npts': npts, 'process_grid': forced, 'iota': iota}
                 if not res.ok:
